@@ -96,7 +96,23 @@ Walk(i, pend, D) ==
                      \cup (IF ic.kind = "data" /\ OpenStringNL(pend \o Rec.chunks[i], 1) THEN {"h:newline-inside-open-string"} ELSE {}) IN
             IF "weird" \in d THEN D \cup d          \* resynchronisation is not specified: stop comparing this scenario
             ELSE Walk(i + 1, ic.rest, D \cup d)
-Diff == Walk(1, <<>>, {})
+(* C08: what the stream did must not depend on how it was cut (ref = the byte-at-a-time execution);  *)
+(* C09: what message B did after message A must equal what B does on a fresh context (ref = B alone). *)
+RECURSIVE CatObs(_)
+CatObs(calls) == IF calls = <<>> THEN [log |-> <<>>, out |-> <<>>, errs |-> <<>>, flush |-> 0]
+                 ELSE LET r == CatObs(Tail(calls)) c == Head(calls) IN
+                      [log |-> c.log \o r.log, out |-> c.out \o r.out, errs |-> c.errs \o r.errs, flush |-> c.flush + r.flush]
+LastPos(calls) == IF calls = <<>> THEN 0 ELSE calls[Len(calls)].pos
+CrossDiff ==
+  IF Rec.ref = <<>> THEN {}
+  ELSE IF Rec.iso = 1 THEN
+       LET a == Rec.obs.calls[Len(Rec.obs.calls)] b == Rec.ref[Len(Rec.ref)] IN
+       IF a.log = b.log /\ a.out = b.out /\ a.errs = b.errs /\ a.flush = b.flush /\ a.ret = b.ret /\ a.pos = b.pos THEN {} ELSE {"carry-over"}
+  ELSE IF CatObs(Rec.obs.calls) = CatObs(Rec.ref) /\ LastPos(Rec.obs.calls) = LastPos(Rec.ref) THEN {}
+  ELSE {"chunking-dependence"} \cup
+       (LET s == Flatten(Rec.chunks) IN
+        IF \E k \in 1..Len(s) : OpenStringNL(SubSeq(s, 1, k), 1) THEN {"h:newline-inside-open-string"} ELSE {})
+Diff == Walk(1, <<>>, {}) \cup CrossDiff
 HintNames == {"weird", "h:list-invalid-after-item-then-terminator", "h:query-without-items", "h:failing-query-with-items", "h:command-with-items", "h:newline-inside-open-string"}
 Real(d) == d \ HintNames
 Conforms == Real(Diff) = {} \/ PrintT(<<"MISMATCH", l, Diff>>)
